@@ -71,6 +71,15 @@ CLAIMS["C17"] = dict(
     note="PARTIAL: fork, the OS scheduler, the entropy source and the statistical quality of the generator are runtime; 'independent' is modelled as disjoint stream segments plus an injectivity hypothesis evaluated on the real draws of every run.",
     design="8.C17")
 
+CLAIMS["C20"] = dict(
+    technique="Lean 4 theorems about the aggregation and cascade model (Atomica.Aggregate, Atomica.Cascade; map form vs the code-shaped fold) + correspondence with PlotData / get_cascade_vals / get_cascade_data (modes A, E)",
+    text="Proof: sums of parts, averages and weighted averages between the extremes, request-independence of every (output, population group) entry (depends_only_on_request; the code-shaped fold equals the map form "
+         "exactly when the default method is not carried over, with kernel-checked witnesses of the former defect), additivity of linear interpolation and trapezoidal time aggregation, monotone stage values for duplicate-free nested cascades, "
+         "cascade data = sum of constituents. PlotData is compared with the model for all orders and subsets of small output lists, all population aggregations, explicit and default methods, interpolation and time "
+         "aggregation; cascades framework-defined and ad hoc; plotting/export calls leave the Result bit-identical (snapshots).",
+    note="matplotlib rendering and Excel formatting not modelled (only non-modification); formula outputs are oracle inputs; first pass of PlotData (link summation / dt, compartment-size weights, units) re-implemented in the harness.",
+    design="8.C20")
+
 NA_DEFAULT = "not yet claimed: model, theorems and correspondence under construction (see DESIGN.md section 8)"
 NA = {}
 
